@@ -1136,6 +1136,20 @@ OWNER_STATE = {'_Task__wbs'}
 RELATION_PARAMS = {'parent', 'children', 'predecessors', 'successors'}
 
 
+def _idempotent_cast(v, vp):
+    """`bool(vp)` / `int(vp)` / `float(vp)` / `str(vp)` (also `vp` itself, `None if vp is None else T(vp)`, `T(vp) if vp is not None
+    else None`): storing the stored value again gives the same value"""
+    if isinstance(v, ast.Name):
+        return v.id == vp
+    if isinstance(v, ast.IfExp):
+        m = match(f"{vp} is None", v.test) or match(f"{vp} is not None", v.test)
+        if m is None:
+            return False
+        return all((isinstance(b, ast.Constant) and b.value is None) or _idempotent_cast(b, vp) for b in (v.body, v.orelse))
+    return isinstance(v, ast.Call) and isinstance(v.func, ast.Name) and v.func.id in ('bool', 'int', 'float', 'str') and \
+        len(v.args) == 1 and not v.keywords and isinstance(v.args[0], ast.Name) and v.args[0].id == vp
+
+
 def _self_stores(f):
     """(stmt, attr, value) for `self.<attr> = value` in f"""
     out = []
@@ -1421,7 +1435,7 @@ def _fields(ctx, o):
     for fld in private:
         if fld in RELATION_STATE or fld in OWNER_STATE:
             continue
-        feed = feed_st = None
+        feed = feed_st = feed_inexact = None
         for st, attr, val in stores:
             if attr == fld and isinstance(val, ast.Name) and val.id in init_params:
                 feed, feed_st = val.id, st
@@ -1432,6 +1446,18 @@ def _fields(ctx, o):
                     for st, attr, val in stores:
                         if attr == pname and isinstance(val, ast.Name) and val.id in init_params:
                             feed, feed_st = val.id, st
+        if feed is None:
+            # Round 11 (C04-r112): the setter stores a value DERIVED from its argument (`self.__f = bool(value)`): the field is still
+            # fed by the constructor parameter.  Handing the getter's value back is the identity only for an idempotent conversion.
+            for pname, setter in task.setters.items():
+                vp = setter.params[1] if len(setter.params) > 1 else None
+                svals = [v for _, _, v in facts.attr_stores(setter, fld)]
+                if vp and any(isinstance(x, ast.Name) and x.id == vp for v in svals for x in ast.walk(v)):
+                    for st, attr, val in stores:
+                        if attr == pname and isinstance(val, ast.Name) and val.id in init_params and feed is None:
+                            feed, feed_st = val.id, st
+                            if not all(_idempotent_cast(v, vp) for v in svals):
+                                feed_inexact = svals[0]
         if feed is not None and arg_passed(feed):
             derived = _derived_from_other_param(init, feed, feed_st, init_params)
             if derived:
@@ -1451,6 +1477,9 @@ def _fields(ctx, o):
             o.refute(cl, ctor, unmangle(fld), f"private data field {unmangle(fld)} (constructor parameter `{feed}`) is not passed to "
                                               f"`Task(...)` in Task.clone and the generic loop skips names starting with '_': every copy "
                                               f"gets the default instead of the source's value")
+        elif feed_inexact is not None:
+            o.undecided(cl, ctor, f"{feed}={src(arg)}", f"the `{feed}` setter stores `{src(feed_inexact)[:60]}` into {unmangle(fld)}: cannot show "
+                                                        f"that handing `{src(arg)}` to the constructor reproduces the source's value")
         elif reads(arg, field=fld):
             o.site(cl, ctor, f"{unmangle(fld)} -> {feed}={src(arg)}")
         else:
